@@ -89,13 +89,13 @@ def expected_apply(rec):
     spec = step["op"]
     w = rec.world
     tg = step["targets"]
-    need = apply_requirements(rec)
     names = live(rec.pre)
     for t in tg:
         if t not in names:
             raise Invalid(f"target {t} destroyed")
     if len(set(tg)) != len(tg):
         raise Invalid("duplicate operands")
+    need = apply_requirements(rec)
     r0, dims = rho_pre(rec, names, need)
     D = rec_dims(rec, need)
     axes = [names.index(t) for t in tg]
